@@ -1,6 +1,6 @@
 (* Proofs for C03 (receive endpoints) *)
 From Coq Require Import List Arith Bool Lia.
-From EN Require Import Lib.Bytes Frame.Framer Stream.Consumer Stream.Endpoint.
+From EN Require Import Lib.Bytes Frame.Framer Stream.Consumer Stream.Endpoint Stream.EndpointSpec.
 Import ListNotations.
 
 Section Generic.
@@ -43,3 +43,421 @@ Section Generic.
       inversion H; subst. eapply rloop_none_no_timeout; eauto.
   Qed.
 End Generic.
+
+Section Sequence.
+  Context {P C : Type}.
+  Variable M : machine P C.
+  Variable mode : emode.
+  Variable spec : bytes -> list (nres P).
+  Variable R : C -> bytes -> nat -> Prop.
+  Hypothesis OK : consumer_ok M spec R.
+
+  Lemma spec_prefix_nth : forall d x k e, nth_error (spec d) k = Some e -> nth_error (spec (d ++ x)) k = Some e.
+  Proof.
+    intros d x k e H. destruct (ok_mono _ _ _ OK d x) as [tl E]. rewrite E.
+    rewrite nth_error_app1; auto. apply nth_error_Some. congruence.
+  Qed.
+
+  Lemma spec_prefix_len : forall d x, length (spec d) <= length (spec (d ++ x)).
+  Proof. intros d x. destruct (ok_mono _ _ _ OK d x) as [tl E]. rewrite E, app_length. lia. Qed.
+
+  Lemma stream_of_data : forall ch dt o, ch <> [] -> stream_of (TData ch dt :: o) = ch ++ stream_of o.
+  Proof. intros [|b ch] dt o H; [congruence|reflexivity]. Qed.
+
+  Lemma take_rest : forall (avail : bytes) n dt o',
+      1 <= n <= length avail ->
+      let o'' := if Nat.ltb n (length avail) then TData (skipn n avail) dt :: o' else o' in
+      firstn n avail ++ stream_of o'' = avail ++ stream_of o' /\ oracle_size o'' < S (length avail) + oracle_size o'.
+  Proof.
+    intros avail n dt o' Hn. simpl. destruct (Nat.ltb n (length avail)) eqn:E.
+    - apply Nat.ltb_lt in E. rewrite stream_of_data.
+      + rewrite app_assoc, firstn_skipn. split; [reflexivity|]. simpl. rewrite skipn_length. lia.
+      + intro H0. apply (f_equal (@length _)) in H0. rewrite skipn_length in H0. simpl in H0. lia.
+    - apply Nat.ltb_ge in E. rewrite firstn_all2 by lia. split; [reflexivity|lia].
+  Qed.
+
+  Definition rloop_post (d0 : bytes) (k : nat) (c' : C) (e' : bool) (rest : bytes) (r : rres P) : Prop :=
+    exists d', d' ++ (if e' then [] else rest) = d0 /\
+      match r with
+      | RecvAborted => e' = true /\ R c' d' k /\ k = length (spec d')
+      | RecvTimeout | RecvRaised _ => e' = false /\ R c' d' k /\ k = length (spec d')
+      | _ => e' = false /\ exists ev, ev <> RStop /\ r = of_nres ev /\ nth_error (spec d') k = Some ev /\ R c' d' (S k)
+      end.
+
+  Lemma rloop_inv : forall fuel t c o el d k c' e' o' r el',
+      oracle_size o < fuel ->
+      R c d k -> k = length (spec d) ->
+      rloop M mode fuel t c o el = (c', e', o', r, el') ->
+      rloop_post (d ++ stream_of o) k c' e' (stream_of o') r.
+  Proof.
+    induction fuel; intros t c o el d k c' e' o' r el' Hf HR Hk H; [lia|].
+    simpl in H. destruct o as [|it o1].
+    - inversion H; subst. exists d. simpl. split; [reflexivity|]. auto.
+    - destruct it as [ch dt| | |kk].
+      + destruct ch as [|b ch].
+        { inversion H; subst. exists d. simpl. split; [reflexivity|]. auto. }
+        destruct (ok_take _ _ _ OK c d k (b :: ch) HR Hk ltac:(discriminate)) as (c1 & r1 & n & room & Et & Hn & Hpost).
+        rewrite Et in H.
+        pose proof (take_rest (b :: ch) n 0 o1 Hn) as [Hs Hsz]. cbv zeta in Hs, Hsz.
+        set (o2 := if Nat.ltb n (length (b :: ch)) then TData (skipn n (b :: ch)) 0 :: o1 else o1) in *.
+        assert (Hd : (d ++ firstn n (b :: ch)) ++ stream_of o2 = d ++ stream_of (TData (b :: ch) dt :: o1)).
+        { rewrite <- app_assoc, Hs. reflexivity. }
+        assert (Hf2 : oracle_size o2 < fuel).
+        { simpl in Hf. simpl in Hsz. lia. }
+        destruct r1 as [p|e| |].
+        * inversion H; subst. exists (d ++ firstn n (b :: ch)). split; [exact Hd|].
+          split; [reflexivity|]. exists (RPkt p). destruct Hpost. repeat split; auto. discriminate.
+        * inversion H; subst. exists (d ++ firstn n (b :: ch)). split; [exact Hd|].
+          split; [reflexivity|]. exists (RErr e). destruct Hpost. repeat split; auto. discriminate.
+        * destruct Hpost as [Hl HR1]. rewrite <- Hd.
+          assert (IH : forall t0, rloop M mode fuel t0 c1 o2 (el + dt) = (c', e', o', r, el') ->
+                              rloop_post ((d ++ firstn n (b :: ch)) ++ stream_of o2) k c' e' (stream_of o') r).
+          { intros t0 H0. eapply IHfuel; eauto. }
+          destruct mode.
+          -- destruct t as [tmo|]; [|eapply IH; eauto].
+             destruct (Nat.ltb 0 tmo); [eapply IH; eauto|].
+             destruct (Nat.ltb n room); [|eapply IH; eauto].
+             inversion H; subst. exists (d ++ firstn n (b :: ch)). split; [reflexivity|]. auto.
+          -- eapply IH; eauto.
+        * inversion H; subst. exists (d ++ firstn n (b :: ch)). split; [exact Hd|].
+          split; [reflexivity|]. exists RCrash. destruct Hpost. repeat split; auto. discriminate.
+      + inversion H; subst. exists d. simpl. rewrite app_nil_r. split; [reflexivity|]. auto.
+      + simpl in Hf. destruct t as [tmo|].
+        * inversion H; subst. exists d. simpl. split; [reflexivity|]. auto.
+        * simpl. eapply IHfuel; eauto. lia.
+      + inversion H; subst. exists d. simpl. split; [reflexivity|]. auto.
+  Qed.
+
+  (* state invariant between calls: [i] results delivered so far, the peer's whole stream is [s] *)
+  Definition Inv (s : bytes) (st : lstate) (o : oracle) (i : nat) : Prop :=
+    exists d k, R (lc st) d k /\ k <= length (spec d) /\ k = Nat.min i (length (spec s)) /\
+      (length (spec s) < i -> leof st = true) /\
+      if leof st then d = s /\ k = length (spec s) else d ++ stream_of o = s.
+
+  Lemma receive_inv : forall s t st o i st' o' r el,
+      Inv s st o i -> receive M mode t st o = (st', o', r, el) ->
+      if is_delivered r then r = expected (spec s) i /\ Inv s st' o' (S i)
+      else Inv s st' o' i.
+  Proof.
+    intros s t st o i st' o' r el (d & k & HR & Hle & Hmin & Heof & Hs) H.
+    unfold receive in H. destruct (mdrain M (lc st)) as [c1 r1] eqn:Ed.
+    pose proof (ok_drain _ _ _ OK _ _ _ _ _ HR Ed) as Hdr.
+    assert (Hev : forall ev, ev <> RStop -> nth_error (spec d) k = Some ev -> R c1 d (S k) ->
+                  (st', o', r) = ({| lc := c1; leof := leof st |}, o, of_nres ev) ->
+                  is_delivered r = true /\ r = expected (spec s) i /\ Inv s st' o' (S i)).
+    { intros ev Hne Hn HR1 E. inversion E; subst st' o' r; clear E.
+      assert (Hk : k < length (spec d)) by (apply nth_error_Some; congruence).
+      assert (Hd : leof st = false /\ d ++ stream_of o = s).
+      { destruct (leof st); [destruct Hs; subst; lia|auto]. }
+      destruct Hd as [He Hd]. subst s.
+      pose proof (spec_prefix_len d (stream_of o)).
+      assert (k = i) by lia. subst i.
+      split; [destruct ev; try reflexivity; congruence|].
+      split.
+      - unfold expected. rewrite (spec_prefix_nth _ _ _ _ Hn). reflexivity.
+      - exists d, (S k). cbn [lc leof]. rewrite He. repeat split; auto; try lia. }
+    destruct r1 as [p|e| |].
+    - destruct Hdr. edestruct (Hev (RPkt p)) as (A & B & D); eauto; [discriminate|inversion H; reflexivity|].
+      rewrite A. auto.
+    - destruct Hdr. edestruct (Hev (RErr e)) as (A & B & D); eauto; [discriminate|inversion H; reflexivity|].
+      rewrite A. auto.
+    - destruct Hdr as [Hk HR1]. destruct (leof st) eqn:He.
+      + inversion H; subst st' o' r el. simpl. destruct Hs as [Hd Hk2]. split.
+        * unfold expected. replace (nth_error (spec s) i) with (@None (nres P)); [reflexivity|].
+          symmetry. apply nth_error_None. lia.
+        * exists s, k. cbn [lc leof]. subst d. repeat split; auto; lia.
+      + destruct (rloop M mode (S (oracle_size o)) t c1 o 0) as [[[[c2 e2] o2] r2] el2] eqn:El.
+        inversion H; subst st' o' r el. clear H.
+        pose proof (rloop_inv _ _ _ _ _ _ _ _ _ _ _ _ (Nat.lt_succ_diag_r _) HR1 Hk El) as (d' & Hd' & Hpost).
+        assert (Hi : Nat.min i (length (spec (d ++ stream_of o))) = i).
+        { destruct (Nat.lt_ge_cases (length (spec (d ++ stream_of o))) i) as [Hlt|]; [|lia].
+          rewrite Hs in Hlt. apply Heof in Hlt. discriminate. }
+        rewrite Hs in Hi.
+        assert (Hki : k = i) by lia. subst i. clear Hi.
+        assert (Hevent : forall ev, e2 = false -> nth_error (spec d') k = Some ev -> R c2 d' (S k) ->
+                  of_nres ev = expected (spec s) k /\ Inv s {| lc := c2; leof := e2 |} o2 (S k)).
+        { intros ev -> Hn HR2. split.
+          - unfold expected. rewrite <- Hs, <- Hd'. rewrite (spec_prefix_nth _ _ _ _ Hn). reflexivity.
+          - assert (k < length (spec d')) by (apply nth_error_Some; congruence).
+            pose proof (spec_prefix_len d' (stream_of o2)). rewrite Hd', Hs in *.
+            exists d', (S k). cbn [lc leof]. repeat split; auto; try lia. }
+        assert (Hquiet : e2 = false -> R c2 d' k -> k = length (spec d') -> Inv s {| lc := c2; leof := e2 |} o2 k).
+        { intros -> HR2 Hk2. exists d', k. cbn [lc leof]. rewrite Hd'. repeat split; auto; try lia. }
+        destruct r2; cbn [is_delivered].
+        * destruct Hpost as (He2 & ev & Hne & Er & Hn & HR2). rewrite Er. eapply Hevent; eauto.
+        * destruct Hpost as (He2 & ev & Hne & Er & Hn & HR2). rewrite Er. eapply Hevent; eauto.
+        * destruct Hpost as (-> & HR2 & Hk2). rewrite app_nil_r in Hd'. subst d'. split.
+          -- unfold expected. replace (nth_error (spec s) k) with (@None (nres P)); [reflexivity|].
+             symmetry. apply nth_error_None. rewrite <- Hs. lia.
+          -- exists (d ++ stream_of o), k. cbn [lc leof]. rewrite Hs in *. repeat split; auto; lia.
+        * destruct Hpost as (He2 & HR2 & Hk2). auto.
+        * destruct Hpost as (He2 & HR2 & Hk2). auto.
+        * destruct Hpost as (He2 & ev & Hne & Er & Hn & HR2). destruct ev; discriminate.
+        * destruct Hpost as (He2 & ev & Hne & Er & Hn & HR2). rewrite Er. eapply Hevent; eauto.
+    - destruct Hdr. edestruct (Hev RCrash) as (A & B & D); eauto; [discriminate|inversion H; reflexivity|].
+      rewrite A. auto.
+  Qed.
+
+
+  Lemma Inv_init : forall c0 o, R c0 [] 0 -> Inv (stream_of o) (linit c0) o 0.
+  Proof.
+    intros c0 o H. exists [], 0. cbn [linit lc leof]. repeat split; auto; try lia.
+  Qed.
+
+  Lemma run_calls_cons : forall st o t ts,
+      run_calls M mode st o (t :: ts) =
+      let '(st', o', r, _) := receive M mode t st o in
+      let '(rs, st'', o'') := run_calls M mode st' o' ts in ((r, o') :: rs, st'', o'').
+  Proof. reflexivity. Qed.
+
+  Lemma run_calls_seq : forall s ts st o i, Inv s st o i ->
+      forall j r, nth_error (delivered (results (run_calls M mode st o ts))) j = Some r ->
+                  r = expected (spec s) (i + j).
+  Proof.
+    induction ts as [|t ts IH]; intros st o i HI j r Hj.
+    - destruct j; discriminate.
+    - rewrite run_calls_cons in Hj.
+      destruct (receive M mode t st o) as [[[st1 o1] r1] el1] eqn:Er.
+      pose proof (receive_inv _ _ _ _ _ _ _ _ _ HI Er) as Hinv.
+      specialize (IH st1 o1).
+      destruct (run_calls M mode st1 o1 ts) as [[rs st2] o2] eqn:Ec.
+      unfold results, delivered in Hj, IH. cbn [fst map filter] in Hj, IH.
+      destruct (is_delivered r1).
+      + destruct Hinv as [Hr HI1]. destruct j.
+        * cbn in Hj. inversion Hj. subst. rewrite Nat.add_0_r. reflexivity.
+        * cbn in Hj. rewrite Nat.add_succ_r. apply (IH (S i) HI1 j r Hj).
+      + apply (IH i Hinv j r Hj).
+  Qed.
+
+  Lemma run_calls_inv : forall s ts st o i rs st' o',
+      Inv s st o i -> run_calls M mode st o ts = (rs, st', o') -> exists i', Inv s st' o' i'.
+  Proof.
+    induction ts as [|t ts IH]; intros st o i rs st' o' HI H.
+    - inversion H; subst. eauto.
+    - rewrite run_calls_cons in H.
+      destruct (receive M mode t st o) as [[[st1 o1] r1] el1] eqn:Er.
+      pose proof (receive_inv _ _ _ _ _ _ _ _ _ HI Er) as Hinv.
+      destruct (run_calls M mode st1 o1 ts) as [[rs2 st2] o2] eqn:Ec.
+      inversion H; subst.
+      destruct (is_delivered r1); [destruct Hinv|]; eapply IH; eauto.
+  Qed.
+
+  (* ---- the latch *)
+  Lemma rloop_aborted_latches : forall fuel t c o el c' e' o' el',
+      rloop M mode fuel t c o el = (c', e', o', RecvAborted, el') -> e' = true.
+  Proof.
+    induction fuel; simpl; intros t c o el c' e' o' el' H; [inversion H|].
+    destruct o as [|it o1]; [inversion H; reflexivity|].
+    destruct it as [ch dt| | |kk].
+    - destruct ch as [|b ch]; [inversion H; reflexivity|].
+      destruct (mtake M c (b :: ch)) as [[[[c1 r1] n] room]|]; [|inversion H].
+      destruct r1; try (inversion H; fail).
+      destruct mode.
+      + destruct t as [tmo|]; [|eapply IHfuel; eauto].
+        destruct (Nat.ltb 0 tmo); [eapply IHfuel; eauto|].
+        destruct (Nat.ltb n room); [inversion H|eapply IHfuel; eauto].
+      + eapply IHfuel; eauto.
+    - inversion H; reflexivity.
+    - destruct t; [inversion H|eapply IHfuel; eauto].
+    - inversion H.
+  Qed.
+
+  Lemma receive_aborted_latches : forall t st o st' o' el,
+      receive M mode t st o = (st', o', RecvAborted, el) -> leof st' = true.
+  Proof.
+    unfold receive. intros t st o st' o' el H.
+    destruct (mdrain M (lc st)) as [c1 r1]. destruct r1; try (inversion H; fail).
+    destruct (leof st); [inversion H; reflexivity|].
+    destruct (rloop M mode (S (oracle_size o)) t c1 o 0) as [[[[c2 e2] o2] r2] el2] eqn:E.
+    inversion H; subst. cbn. eapply rloop_aborted_latches; eauto.
+  Qed.
+
+  Lemma sticky_step : forall s st o i, Inv s st o i -> leof st = true ->
+      forall t o2, exists c', receive M mode t st o2 = ({| lc := c'; leof := true |}, o2, RecvAborted, 0) /\
+                              Inv s {| lc := c'; leof := true |} o2 (S i).
+  Proof.
+    intros s st o i (d & k & HR & Hle & Hmin & Heof & Hs) He t o2. rewrite He in Hs. destruct Hs as [Hd Hk].
+    unfold receive. destruct (mdrain M (lc st)) as [c1 r1] eqn:Ed.
+    pose proof (ok_drain _ _ _ OK _ _ _ _ _ HR Ed) as Hdr. subst d.
+    assert (Hnone : nth_error (spec s) k = None) by (apply nth_error_None; lia).
+    destruct r1; try (destruct Hdr; congruence).
+    rewrite He. exists c1. split; [reflexivity|].
+    destruct Hdr. exists s, k. cbn [lc leof]. repeat split; auto; lia.
+  Qed.
+
+  Lemma sticky_calls : forall s ts st o i, Inv s st o i -> leof st = true ->
+      forall o2, exists st', run_calls M mode st o2 ts = (map (fun _ => (RecvAborted, o2)) ts, st', o2).
+  Proof.
+    induction ts as [|t ts IH]; intros st o i HI He o2.
+    - eexists; reflexivity.
+    - destruct (sticky_step _ _ _ _ HI He t o2) as (c' & Er & HI2).
+      destruct (IH _ _ _ HI2 eq_refl o2) as (st' & Ec).
+      exists st'. rewrite run_calls_cons, Er, Ec. reflexivity.
+  Qed.
+End Sequence.
+
+Section Counting.
+  Context {P C : Type}.
+  Variable M : machine P C.
+  Variable mode : emode.
+
+  Lemma rloop_raises : forall fuel t c o el c' e' o' r el',
+      rloop M mode fuel t c o el = (c', e', o', r, el') -> raises o' + is_raised r <= raises o.
+  Proof.
+    induction fuel; simpl; intros t c o el c' e' o' r el' H; [inversion H; subst; simpl; lia|].
+    destruct o as [|it o1]; [inversion H; subst; simpl; lia|].
+    destruct it as [ch dt| | |kk].
+    - destruct ch as [|b ch]; [inversion H; subst; simpl; lia|].
+      destruct (mtake M c (b :: ch)) as [[[[c1 r1] n] room]|]; [|inversion H; subst; simpl; lia].
+      set (o2 := if Nat.ltb n (length (b :: ch)) then TData (skipn n (b :: ch)) 0 :: o1 else o1) in *.
+      assert (Ho2 : raises o2 = raises o1) by (unfold o2; destruct (Nat.ltb n (length (b :: ch))); reflexivity).
+      cbn [raises fold_right]. fold (raises o1). rewrite <- Ho2.
+      destruct r1; try (inversion H; subst; simpl; lia).
+      destruct mode.
+      + destruct t as [tmo|]; [|eapply IHfuel; eauto].
+        destruct (Nat.ltb 0 tmo); [eapply IHfuel; eauto|].
+        destruct (Nat.ltb n room); [inversion H; subst; simpl; lia|eapply IHfuel; eauto].
+      + eapply IHfuel; eauto.
+    - inversion H; subst; simpl; lia.
+    - cbn [raises fold_right]. fold (raises o1). destruct t; [inversion H; subst; simpl; lia|eapply IHfuel; eauto].
+    - inversion H; subst; unfold raises; simpl; lia.
+  Qed.
+
+  Lemma receive_raises : forall t st o st' o' r el,
+      receive M mode t st o = (st', o', r, el) -> raises o' + is_raised r <= raises o.
+  Proof.
+    unfold receive. intros t st o st' o' r el H.
+    destruct (mdrain M (lc st)) as [c1 r1].
+    destruct r1; try (inversion H; subst; simpl; lia).
+    destruct (leof st); [inversion H; subst; simpl; lia|].
+    destruct (rloop M mode (S (oracle_size o)) t c1 o 0) as [[[[c2 e2] o2] r2] el2] eqn:E.
+    inversion H; subst. eapply rloop_raises; eauto.
+  Qed.
+
+  Lemma run_calls_raises : forall ts st o rs st' o',
+      run_calls M mode st o ts = (rs, st', o') -> raises o' <= raises o.
+  Proof.
+    induction ts as [|t ts IH]; intros st o rs st' o' H.
+    - inversion H; subst; lia.
+    - cbn [run_calls] in H.
+      destruct (receive M mode t st o) as [[[st1 o1] r1] el1] eqn:Er.
+      destruct (run_calls M mode st1 o1 ts) as [[rs2 st2] o2] eqn:Ec.
+      inversion H; subst. apply receive_raises in Er. apply IH in Ec. lia.
+  Qed.
+
+  Lemma run_calls_app : forall ts1 ts2 st o,
+      run_calls M mode st o (ts1 ++ ts2) =
+      let '(rs1, st1, o1) := run_calls M mode st o ts1 in
+      let '(rs2, st2, o2) := run_calls M mode st1 o1 ts2 in (rs1 ++ rs2, st2, o2).
+  Proof.
+    induction ts1 as [|t ts1 IH]; intros ts2 st o.
+    - cbn. destruct (run_calls M mode st o ts2) as [[? ?] ?]. reflexivity.
+    - cbn [app run_calls]. destruct (receive M mode t st o) as [[[st1 o1] r1] el1].
+      rewrite IH. destruct (run_calls M mode st1 o1 ts1) as [[rs1 st2] o2].
+      destruct (run_calls M mode st2 o2 ts2) as [[rs2 st3] o3]. reflexivity.
+  Qed.
+
+  (* n calls without timeout deliver at least n - (transport errors still to come) results *)
+  Lemma none_calls_deliver : forall n m st o, raises o + m <= n ->
+      m <= length (delivered (map fst (fst (fst (run_calls M mode st o (repeat None n)))))).
+  Proof.
+    induction n; intros m st o H.
+    - cbn. lia.
+    - cbn [repeat run_calls].
+      destruct (receive M mode None st o) as [[[st1 o1] r1] el1] eqn:Er.
+      pose proof (receive_raises _ _ _ _ _ _ _ Er) as Hr.
+      pose proof (receive_none_no_timeout _ _ _ _ _ _ _ _ Er) as Hnt.
+      specialize (IHn (if is_delivered r1 then pred m else m) st1 o1).
+      destruct (run_calls M mode st1 o1 (repeat None n)) as [[rs st2] o2].
+      cbn [fst map delivered filter]. unfold delivered in IHn. cbn [fst] in IHn.
+      destruct r1; cbn [is_delivered is_raised] in *; cbn [length];
+        try (destruct m; [lia|]; cbn [pred] in IHn; assert (m <= length (filter is_delivered (map fst rs))) by (apply IHn; lia); lia).
+      + congruence.
+      + apply IHn. lia.
+  Qed.
+End Counting.
+
+Lemma firstn_pointwise : forall {A} (f : nat -> A) (l : list A) n,
+    n <= length l -> (forall j r, nth_error l j = Some r -> r = f j) -> firstn n l = map f (seq 0 n).
+Proof.
+  intros A f l n. revert f l. induction n; intros f l Hn Hp; [reflexivity|].
+  destruct l as [|a l]; [simpl in Hn; lia|].
+  cbn [firstn seq map]. f_equal.
+  - apply (Hp 0 a eq_refl).
+  - rewrite <- seq_shift, map_map. apply IHn; [simpl in Hn; lia|].
+    intros j r Hj. apply (Hp (S j) r Hj).
+Qed.
+
+Lemma map_expected_seq : forall {P} (evs : list (nres P)),
+    map (expected evs) (seq 0 (S (length evs))) = map of_nres evs ++ [RecvAborted].
+Proof.
+  intros P evs. rewrite seq_S, map_app. cbn [map Nat.add]. f_equal.
+  - clear. unfold expected.
+    assert (G : forall pre, map (fun i => match nth_error (pre ++ evs) i with Some e => of_nres e | None => RecvAborted end)
+                         (seq (length pre) (length evs)) = map of_nres evs).
+    { induction evs as [|e evs IH]; intros pre; [reflexivity|].
+      cbn [length seq map]. rewrite nth_error_app2 by lia. rewrite Nat.sub_diag. cbn [nth_error]. f_equal.
+      specialize (IH (pre ++ [e])). rewrite <- app_assoc in IH. cbn [app] in IH.
+      rewrite app_length in IH. cbn [length] in IH. rewrite Nat.add_1_r in IH. exact IH. }
+    apply (G []).
+  - unfold expected. replace (nth_error evs (length evs)) with (@None (nres P)); [reflexivity|].
+    symmetry. apply nth_error_None. lia.
+Qed.
+
+Section Theorems.
+  Context {P C : Type}.
+  Variable M : machine P C.
+  Variable mode : emode.
+  Variable spec : bytes -> list (nres P).
+  Variable R : C -> bytes -> nat -> Prop.
+  Hypothesis OK : consumer_ok M spec R.
+  Variable c0 : C.
+  Hypothesis R0 : R c0 [] 0.
+
+  Lemma recv_sequence_proof : forall o ts j r,
+      nth_error (delivered (results (run_calls M mode (linit c0) o ts))) j = Some r ->
+      r = expected (spec (stream_of o)) j.
+  Proof.
+    intros o ts j r H.
+    apply (run_calls_seq M mode spec R OK (stream_of o) ts (linit c0) o 0 (Inv_init spec R c0 o R0) j r H).
+  Qed.
+
+  Lemma no_partial_delivery_proof : forall o ts s1 tail,
+      stream_of o = s1 ++ tail -> spec (s1 ++ tail) = spec s1 ->
+      forall j r, nth_error (delivered (results (run_calls M mode (linit c0) o ts))) j = Some r ->
+                  length (spec s1) <= j -> r = RecvAborted.
+  Proof.
+    intros o ts s1 tail Hs Hspec j r H Hj.
+    apply recv_sequence_proof in H. rewrite Hs, Hspec in H. subst r. unfold expected.
+    replace (nth_error (spec s1) j) with (@None (nres P)); [reflexivity|]. symmetry. apply nth_error_None. exact Hj.
+  Qed.
+
+  Lemma eof_sticky_proof : forall o ts1 rs1 st1 o1,
+      run_calls M mode (linit c0) o ts1 = (rs1, st1, o1) ->
+      forall t st2 o2 el, receive M mode t st1 o1 = (st2, o2, RecvAborted, el) ->
+      forall ts' o', exists st3, run_calls M mode st2 o' ts' = (map (fun _ => (RecvAborted, o')) ts', st3, o').
+  Proof.
+    intros o ts1 rs1 st1 o1 H1 t st2 o2 el H2 ts' o'.
+    destruct (run_calls_inv M mode spec R OK _ _ _ _ _ _ _ _ (Inv_init spec R c0 o R0) H1) as [i HI].
+    pose proof (receive_inv M mode spec R OK _ _ _ _ _ _ _ _ _ HI H2) as Hinv. cbn [is_delivered] in Hinv.
+    destruct Hinv as [_ HI2].
+    apply (sticky_calls M mode spec R OK _ ts' _ _ _ HI2 (receive_aborted_latches M mode _ _ _ _ _ _ H2) o').
+  Qed.
+
+  Lemma timeout_loses_nothing_proof : forall o ts,
+      let evs := spec (stream_of o) in
+      firstn (S (length evs))
+             (delivered (results (run_calls M mode (linit c0) o (ts ++ repeat None (S (length evs) + raises o)))))
+      = map of_nres evs ++ [RecvAborted].
+  Proof.
+    intros o ts evs.
+    rewrite <- map_expected_seq. apply firstn_pointwise.
+    - rewrite run_calls_app.
+      destruct (run_calls M mode (linit c0) o ts) as [[rs1 st1] o1] eqn:E1.
+      pose proof (run_calls_raises M mode _ _ _ _ _ _ E1) as Hr.
+      pose proof (none_calls_deliver M mode (S (length evs) + raises o) (S (length evs)) st1 o1 ltac:(lia)) as Hn.
+      destruct (run_calls M mode st1 o1 (repeat None (S (length evs) + raises o))) as [[rs2 st2] o2].
+      unfold results, delivered in *. cbn [fst] in *. rewrite map_app, filter_app, app_length. lia.
+    - intros j r H. apply recv_sequence_proof in H. exact H.
+  Qed.
+End Theorems.
